@@ -1372,7 +1372,7 @@ func genMain(w *bufio.Writer, a map[string]string) {
 		for _, tc := range c12Singles() {
 			fmt.Fprintln(w, tc.encode())
 		}
-		n := 520
+		n := 760
 		if thorough {
 			n = 5000
 		}
@@ -1380,9 +1380,9 @@ func genMain(w *bufio.Writer, a map[string]string) {
 			fmt.Fprintln(w, g.c12Random().encode())
 		}
 	case "C13":
-		n := 330
+		n := 560
 		if thorough {
-			n = 2600
+			n = 5000
 		}
 		for i := 0; i < n; i++ {
 			fmt.Fprintln(w, g.c13Random().encode())
